@@ -235,6 +235,7 @@ DoPu(ev) ==
       wanted == {s \in StepIds(g) : StOf(s) # "Unknown"}
       df == c[5] + c[6]
       v == Lbl({"C19"}, "total", SumSeq6(c) = Cardinality(NonPhony(g, wanted)))
+           \cup Lbl({"C19"}, "reported-total", ev.total = Cardinality(NonPhony(g, wanted)))
            \cup Lbl({"C19"}, "wanted-set", wanted = W(g) \/ (w.workNo = 1 /\ wanted = W1(g)))
            \cup Lbl({"C19"}, "per-state", /\ c[1] = CountSt(g, "Want") /\ c[2] = CountSt(g, "Ready")
                              /\ c[3] = CountSt(g, "Queued") /\ c[4] = CountSt(g, "Running")
@@ -278,16 +279,18 @@ DoEnd(ev) ==
                    THEN NonPhony(g, W1(g)) ELSE np
       allExist == \A s \in np : MissingOf(g, w.file, s, CurRec(s).deps) = {}
       v == Lbl({"C06", "C12"}, "panic", ev.panic = "")
+           \cup Lbl({"C07"}, "log-unreadable", ev.errk # "loaddb")
            \cup Lbl({"C05"}, "exit-zero-after-failure", (w.finFail # {} \/ w.intr # {} \/ ev.err # "") => ~ok)
            \cup (IF ~loaded THEN {} ELSE
-                Lbl({"C02", "C05"}, "dirty-left", (ok /\ ~adoptMissing) => \A s \in np : uptodate(s))
+                Lbl(IF w.workNo = 2 THEN {"C02", "C05", "C17"} ELSE {"C02", "C05"}, "dirty-left", (ok /\ ~adoptMissing) => \A s \in np : uptodate(s))
                 \cup Lbl({"C19"}, "summary", ok => /\ (ev.summary = "nowork") = (w.nOK = 0)
                                         /\ (ev.summary = "ran" => ev.n = w.nOK)
                                         /\ ev.summary # "none")
                 \cup Lbl({"C18"}, IF unk \subseteq logNames THEN "unknown-accepted-logname" ELSE "unknown-accepted",
                     unk # {} => ~ok)
                 \cup Lbl({"C18"}, "unknown-arg", ev.errk = "unknown_path" => ev.errarg \in unk)
-                \cup Lbl({"C18"}, "wanted-closure", (ok /\ ev.err = "") => wantedSet = Wn)
+                \cup Lbl(IF w.workNo = 2 THEN {"C18", "C17"} ELSE {"C18"}, "wanted-closure",
+                      (ok /\ ev.err = "") => wantedSet = Wn)
                 \cup Lbl({"C06"}, "cycle-accepted", cyc => ~ok)
                 \cup Lbl({"C06"}, "cycle-text", ev.errk = "cycle" =>
                         /\ ValidCycle(g, ev.cyc)
